@@ -20,7 +20,7 @@ tvars == <<vars, l>>
 ToSet(s) == {s[i] : i \in DOMAIN s}
 
 BindObserved(e) ==
-  /\ exists' = e.st.exists /\ isr' = ToSet(e.st.isr) /\ leader' = e.st.leader
+  /\ exists' = e.st.exists /\ isr' = ToSet(e.st.isr) /\ pisr' = ToSet(e.st.pisr) /\ leader' = e.st.leader
   /\ lepoch' = e.st.lepoch /\ pepoch' = e.st.pepoch /\ e0' = e.st.e0
   /\ fo' = [on |-> e.st.fo.on, wit |-> ToSet(e.st.fo.wit)]
   /\ obs' = e.obs
@@ -28,7 +28,7 @@ BindObserved(e) ==
 
 TraceInit ==
   LET e == Trace[1] IN
-  /\ exists = e.st.exists /\ isr = ToSet(e.st.isr) /\ leader = e.st.leader
+  /\ exists = e.st.exists /\ isr = ToSet(e.st.isr) /\ pisr = ToSet(e.st.pisr) /\ leader = e.st.leader
   /\ lepoch = e.st.lepoch /\ pepoch = e.st.pepoch /\ e0 = e.st.e0
   /\ fo = [on |-> e.st.fo.on, wit |-> ToSet(e.st.fo.wit)]
   /\ obs = e.obs /\ pend = e.st.pend
@@ -45,7 +45,7 @@ GoodAfter(e) ==
     [] e.a = "ReportApply" -> GoodAfterReport(pend[e.args.i].w, pend[e.args.i].l, pend[e.args.i].e)
     [] e.a \in {"Shrink", "Expand"} -> IF Stale(e.args.l, e.args.e) THEN good ELSE GoodAfterISR
     [] e.a = "ISRApply" -> GoodAfterISR
-    [] e.a \in {"Skip", "ReportCheck", "ISRCheck"} -> good
+    [] e.a \in {"Skip", "ReportCheck", "ISRCheck", "Rebuild"} -> good
     [] OTHER -> {}      \* Expire, Lose, Remove
 ArmedAfter(e) ==
   CASE e.a = "Open" -> FALSE
@@ -53,7 +53,7 @@ ArmedAfter(e) ==
     [] e.a = "ReportApply" -> ArmedAfterApply(pend[e.args.i].l, pend[e.args.i].e)
     [] e.a \in {"Shrink", "Expand", "Skip", "ReportCheck", "ISRCheck", "ISRApply"} -> armed
     [] e.a = "Expire" -> IF fo.on /\ armed THEN FALSE ELSE armed
-    [] e.a = "Remove" -> IF exists THEN FALSE ELSE armed
+    [] e.a \in {"Remove", "Rebuild"} -> IF exists THEN FALSE ELSE armed
     [] OTHER -> FALSE   \* Lose
 
 TaintAfter(e) ==
@@ -70,20 +70,22 @@ PropOf(e) ==
     [] e.a = "Shrink" -> P_ShrinkISR(e.args.r, e.args.l, e.args.e)
     [] e.a = "Expand" -> P_ExpandISR(e.args.r, e.args.l, e.args.e)
     [] e.a = "Remove" -> P_RemoveStream
+    [] e.a = "Rebuild" -> P_Rebuild
     [] OTHER -> P_Quiet
 
 ImplOf(e) ==
-  CASE e.a = "Report" -> DoReportLeader(e.args.w, e.args.l, e.args.e)
+  CASE e.a = "Report" -> DoReportLeader(e.args.w, e.args.l, e.args.e, e.args.ok)
     [] e.a = "ReportCheck" -> DoReportCheck(e.args.w, e.args.l, e.args.e)
     [] e.a = "ReportApply" -> DoReportApply(e.args.i)
     [] e.a = "ISRCheck" -> DoISRCheck(e.args.k, e.args.r, e.args.l, e.args.e)
     [] e.a = "ISRApply" -> DoISRApply(e.args.i)
-    [] e.a = "Shrink" -> DoShrinkISR(e.args.r, e.args.l, e.args.e)
-    [] e.a = "Expand" -> DoExpandISR(e.args.r, e.args.l, e.args.e)
+    [] e.a = "Shrink" -> DoShrinkISR(e.args.r, e.args.l, e.args.e, e.args.ok)
+    [] e.a = "Expand" -> DoExpandISR(e.args.r, e.args.l, e.args.e, e.args.ok)
     [] e.a = "Expire" -> DoExpire
     [] e.a = "Lose" -> DoLoseControllership
     [] e.a = "Remove" -> DoRemoveStream
-    [] e.a = "Skip" -> UNCHANGED <<exists, isr, leader, lepoch, pepoch, e0, fo, pend>>
+    [] e.a = "Rebuild" -> DoRebuild
+    [] e.a = "Skip" -> UNCHANGED <<exists, isr, pisr, leader, lepoch, pepoch, e0, fo, pend>>
     [] OTHER -> FALSE
 
 TraceNext ==
@@ -99,6 +101,7 @@ TraceNext ==
              /\ Chk(ImplOf(e), "I", e, "step")
      /\ Chk(C07_LeaderInISR', "P", e, "C07_LeaderInISR")
      /\ Chk(TypeOK', "I", e, "TypeOK")
+     /\ Chk(PersistedISR', "I", e, "PersistedISR")
      /\ Chk(StatusLive', "I", e, "StatusLive")
      /\ Chk(WitnessesAreGood', "I", e, "WitnessesAreGood")
 
